@@ -1,0 +1,51 @@
+//go:build verif
+
+// Spray-and-wait contracts (C18) for the govc verifier (see /verif/DESIGN.md). Comment-only.
+
+package routing
+
+// Assumed: the bundle behind a descriptor can be loaded from the store (MustBundle panics otherwise) and is a
+// well-formed in-memory bundle; repeated calls return the same object.
+// govc:trusted (*BundleDescriptor).MustBundle
+//@ assigns descriptor.bndl
+//@ ensures result != nil && blocksNonNil(*result) && descriptor.bndl == result
+//@ ensures old(descriptor.bndl) != nil ==> result == old(descriptor.bndl)
+
+// govc:trusted (*Core).HasEndpoint
+//@ assigns nothing
+//@ ensures result == uf("coreHasEndpoint", bool, c, endpoint)
+
+// ---- vanilla spray and wait: metadata.remainingCopies + |sent| is the budget; the last copy is never handed out ----
+
+// A failed transmission gives its copy back and makes exactly that peer eligible again.
+// govc:func (*SprayAndWait).ReportFailure property C18 C13
+//@ requires sw.bundleData != nil && sender != nil
+//@ requires has(sw.bundleData, bp.Id) ==> sw.bundleData[bp.Id].remainingCopies < 18446744073709551615
+//@ assigns mapof(sw.bundleData), elems(sw.bundleData[bp.Id].sent)
+//@ ensures !old(has(sw.bundleData, bp.Id)) ==> !has(sw.bundleData, bp.Id)
+//@ ensures old(has(sw.bundleData, bp.Id)) ==> has(sw.bundleData, bp.Id) && sw.bundleData[bp.Id].remainingCopies == old(sw.bundleData[bp.Id].remainingCopies) + 1
+//@ ensures old(has(sw.bundleData, bp.Id)) ==> len(sw.bundleData[bp.Id].sent) == old(len(sw.bundleData[bp.Id].sent)) || len(sw.bundleData[bp.Id].sent) + 1 == old(len(sw.bundleData[bp.Id].sent))
+//@ loop 0 invariant 0 <= i && i <= len(metadata.sent) && metadata.remainingCopies == old(sw.bundleData[bp.Id].remainingCopies) + 1 && len(metadata.sent) == old(len(sw.bundleData[bp.Id].sent))
+//@ loop 0 invariant old(has(sw.bundleData, bp.Id)) && sw.bundleData[bp.Id].remainingCopies == old(sw.bundleData[bp.Id].remainingCopies) && has(sw.bundleData, bp.Id)
+//@ loop 0 decreases len(metadata.sent) - i
+
+// Textual bundle id, used for logging only.
+// govc:trusted (BundleDescriptor).ID
+//@ assigns nothing
+
+// Selecting senders spends one copy per selected peer, never the last one; the selected peers are appended to the
+// sent list; nothing is selected without metadata or with fewer than two copies.
+// govc:func (*SprayAndWait).SenderForBundle property C18 C13
+//@ requires sw.bundleData != nil && sw.c != nil && sw.c.claManager != nil
+//@ assigns mapof(sw.bundleData)
+//@ ensures !del
+//@ ensures !old(has(sw.bundleData, bp.Id)) ==> len(css) == 0 && !has(sw.bundleData, bp.Id)
+//@ ensures old(has(sw.bundleData, bp.Id)) ==> has(sw.bundleData, bp.Id) && sw.bundleData[bp.Id].remainingCopies + uint64(len(css)) == old(sw.bundleData[bp.Id].remainingCopies)
+//@ ensures old(has(sw.bundleData, bp.Id)) ==> len(sw.bundleData[bp.Id].sent) == old(len(sw.bundleData[bp.Id].sent)) + len(css)
+//@ ensures old(has(sw.bundleData, bp.Id)) && old(sw.bundleData[bp.Id].remainingCopies) >= 1 ==> sw.bundleData[bp.Id].remainingCopies >= 1
+//@ ensures old(has(sw.bundleData, bp.Id)) && old(sw.bundleData[bp.Id].remainingCopies) < 2 ==> len(css) == 0
+//@ loop 0 invariant 0 <= rangeindex + 1 && has(sw.bundleData, bp.Id) && old(has(sw.bundleData, bp.Id)) && old(sw.bundleData[bp.Id].remainingCopies) >= 2
+//@ loop 0 invariant sw.bundleData[bp.Id].remainingCopies == old(sw.bundleData[bp.Id].remainingCopies) && len(sw.bundleData[bp.Id].sent) == old(len(sw.bundleData[bp.Id].sent))
+//@ loop 0 invariant metadata.remainingCopies >= 1 && metadata.remainingCopies + uint64(len(css)) == old(sw.bundleData[bp.Id].remainingCopies)
+//@ loop 0 invariant len(metadata.sent) == old(len(sw.bundleData[bp.Id].sent)) + len(css) && len(css) <= rangeindex + 1
+//@ loop 1 invariant 0 <= rangeindex + 1
